@@ -48,7 +48,7 @@ def gen_ts(rng, n_types):
             user.append(name)
     for n in user:
         for _ in range(rng.randint(0, 4)):
-            fname = rng.choice(["f", "g", "self", "type", "value", "k1", "k2", "ref"])
+            fname = rng.choice(["f", "g", "self", "type", "value", "k1", "k2", "ref", "class_", "label_", "self_"])
             r = rng.choice(tsgen.RANGES_PRIM + tsgen.RANGES_COLL + user + ["uima.tcas.Annotation", "uima.cas.TOP"])
             el = rng.choice([None, "uima.tcas.Annotation", "uima.cas.TOP"] + user[:2]) if r in ("uima.cas.FSArray", "uima.cas.FSList") else None
             multi = rng.choice([None, None, True, False])
